@@ -50,6 +50,21 @@ CLAIMED.update({
    technique="Verus contracts on the extracted aggregate step functions", design='5 (C02), 4.5 U-aggstep'),
 })
 
+CLAIMED.update({
+ 'C06': dict(
+   text="Function-level proofs, layer by layer: fixed-width value codecs round-trip for every value (Kani, in place, all 10 types; Interval sub-day part is a recorded known finding); "
+        "RLE varint round-trips every u32; plain i32 block builder/iterator: bytes written are a function of the appended values and iteration from any position with any batch sizes returns exactly "
+        "items[pos..pos+k] (Verus, extracted); nullable iterator keeps its bitmap cursor equal to the value cursor under skip/next_batch; further units as listed in the evidence. "
+        "Partial: char/blob/vector/dict blocks, append_one_by_one and the async column fetch loop are not under contract.",
+   note="Assumes: generic code verified at T=i32; bitvec copy statement in NullableBlockIterator::next_batch elided; A-fw axioms backed by the Kani harnesses; rows per block fit usize.",
+   technique="Kani loop-free harnesses in place (codecs) + Verus contracts on extracted block builders/iterators", design='5 (C06), 4.1'),
+ 'C07': dict(
+   text="Function-level proofs: the row address used by DELETE packs/unpacks exactly for every (rowset < 2^31, row) and is injective (Kani, in-place function contracts), so a delete can only address the row that was scanned; "
+        "further units (row-handler iterator, merge visibility/heap) as listed in the evidence. Partial (thin): DeleteVector::apply_to (bitvec iterator chain) is outside both verifiers; DV files, compaction commit and reopen are I/O.",
+   note="Assumes rowset ids < 2^31 (precondition surfaced by the contract; ids are allocated from 0 by a counter).",
+   technique="Kani function contracts in place + Verus contracts on extracted iterators", design='5 (C07), 4.1-4.2'),
+})
+
 NA = {
  'C01': "rewrite rules are egg pattern strings inside rw! macros plus e-class analyses; 'two plan terms have equal SQL results' is not expressible as a contract on a Rust function (would be proving a hand-written semantics = a model)",
  'C05': "whole-engine observational equivalence of two async trait implementations over statement histories; no single-call or single-structure contract states it",
@@ -65,8 +80,7 @@ NA = {
  'C20': "CSV export/import runs through the csv crate and per-type Display/FromStr: string formatting/parsing",
 }
 # claimed in DESIGN.md but not wired yet are listed here with that reason until their units exist
-PENDING = {k: 'planned in DESIGN.md (function-level contracts) but its units are not wired into ./check yet; not claimed until they are'
-           for k in ('C06', 'C07')}
+PENDING = {}
 
 
 def main():
